@@ -134,7 +134,7 @@ func init() {
 			return c.V.Oracle == "api" && last.Ver > 0 && is(last.Ver)
 		}
 		// state oracles of C14 name the version they complain about
-		if c.V.OpVer != 0 || c.V.Oracle == "versions/phantom" {
+		if strings.HasSuffix(c.V.Oracle, "versions/phantom") {
 			return is(c.V.OpVer)
 		}
 		return false
@@ -228,5 +228,17 @@ func init() {
 			}
 		}
 		return fl > 0 && fl <= 1000 && last.Ver-m.First+1 >= 2 && last.Ver < m.Latest
+	}
+}
+
+func init() {
+	// Pruning leaks the record (v,1) of a deleted version v whose root was a single leaf that later became a
+	// child of another tree and was orphaned afterwards: deleteVersion mistakes such an orphan (nonce 1,
+	// older version) for a re-keyed root and deletes the non-existent (v,0) instead.
+	matchers["c12_leaked_single_leaf_root"] = func(c *MatchCtx) bool {
+		if !strings.HasSuffix(c.V.Oracle, "reach-garbage") || c.V.Facts == nil {
+			return false
+		}
+		return c.V.Facts["garbage_nonce"] == 1 && c.V.Facts["garbage_leaf"] == true && c.V.Facts["garbage_version_retained"] == false
 	}
 }
